@@ -40,6 +40,11 @@ type iterator struct {
 
 	closer io.Closer
 
+	// ownsSS is true when the iterator holds a ref-count on ss, which
+	// keeps the stack's lowerLevelSnapshot alive for SeekTo() and for
+	// merge operands resolved by Current().
+	ownsSS bool
+
 	iteratorOptions IteratorOptions
 }
 
@@ -74,13 +79,33 @@ type cursor struct {
 func (ss *segmentStack) StartIterator(
 	startKeyInclusive, endKeyExclusive []byte,
 	iteratorOptions IteratorOptions) (Iterator, error) {
+	return ss.startIteratorEx(startKeyInclusive, endKeyExclusive,
+		iteratorOptions, true)
+}
+
+// startIteratorEx() is StartIterator() with a choice of whether the
+// returned iterator takes its own ref-count on the segmentStack.  A
+// Footer's iterators need not: the Footer they close keeps its
+// segmentStack.
+func (ss *segmentStack) startIteratorEx(
+	startKeyInclusive, endKeyExclusive []byte,
+	iteratorOptions IteratorOptions, ownSS bool) (Iterator, error) {
 	iter, err :=
 		ss.startIterator(startKeyInclusive, endKeyExclusive, iteratorOptions)
 	if err != nil {
 		return nil, err
 	}
 
-	return iter.optimize()
+	rv, err := iter.optimize()
+	if ownSS && err == nil && rv == Iterator(iter) {
+		// The heap iterator keeps using ss (SeekTo, merge operands),
+		// so it must keep ss - and with it the lower level snapshot -
+		// alive even when the snapshot it came from is closed first.
+		ss.addRef()
+		iter.ownsSS = true
+	}
+
+	return rv, err
 }
 
 // startIterator() returns a new iterator on the given segmentStack.
@@ -220,6 +245,11 @@ func (iter *iterator) Close() error {
 		iter.closer = nil
 	}
 
+	if iter.ownsSS {
+		iter.ownsSS = false
+		iter.ss.decRef()
+	}
+
 	return nil
 }
 
@@ -343,6 +373,7 @@ func (iter *iterator) SeekTo(seekToKey []byte) error {
 
 	iterOld := *iter // Clone current iterator before overwriting it.
 	iterOld.closer = nil
+	iterOld.ownsSS = false
 
 	iter.cursors = iterNew.cursors
 	iter.lowerLevelIter = iterNew.lowerLevelIter
